@@ -9,6 +9,7 @@
 #include <libxml/parser.h>
 
 #include <algorithm>
+#include <chrono>
 #include <cstdio>
 #include <cstdlib>
 #include <fstream>
